@@ -154,12 +154,12 @@ def gen_failed_result(g, api=None, extra_mech=None):
             "sample": {"tags": sorted(api.tags)[:20] if api is not None else []}}
 
 
-def runner_failed_result(ev, rc, err, api=None):
+def runner_failed_result(ev, rc, err, api=None, extra_mech=None):
     """Result for a runner that produced no events: an import failure of the emitted library is a violation
     (clause library-import-fails); anything else is a harness problem (inconclusive)."""
     if ev and "library_import_error" in ev:
         e = ev["library_import_error"]
         return {"verdict": "violated", "evaluations": 1, "counters": {"library_import_failed": 1},
-                "violations": [{"clause": "library-import-fails", "detail": e, "mech": {"exc_type": e["type"]}}],
+                "violations": [{"clause": "library-import-fails", "detail": e, "mech": {"exc_type": e["type"], **(extra_mech or {})}}],
                 "sample": {"tags": sorted(api.tags)[:20] if api is not None else []}}
     return {"verdict": "inconclusive", "why": f"runner rc={rc} {err[-600:]} {str(ev)[:1500]}"}
